@@ -21,6 +21,7 @@ func main() {
 	keep := flag.String("keep", "", "directory to keep failing scripts")
 	dump := flag.Bool("dump-overlay", false, "print the generated specification file")
 	verbose := flag.Bool("v", false, "verbose")
+	listFuncs := flag.String("list", "", "list SSA functions matching the regexp and exit")
 	evidence := flag.String("evidence", "", "write evidence JSON to this file")
 	replayDir := flag.String("replays", "", "directory for replay files")
 	known := flag.String("known", "", "known findings file")
@@ -46,6 +47,18 @@ func main() {
 	}
 	if *dump {
 		fmt.Println(L.Overlay)
+	}
+	if *listFuncs != "" {
+		re := regexp.MustCompile(*listFuncs)
+		var ns []string
+		for n, f := range L.Funcs {
+			if re.MatchString(n) {
+				ns = append(ns, fmt.Sprintf("%s  blocks=%d synthetic=%q", n, len(f.Blocks), f.Synthetic))
+			}
+		}
+		sort.Strings(ns)
+		fmt.Println(strings.Join(ns, "\n"))
+		os.Exit(0)
 	}
 	tmo := *timeout
 	if tmo == 0 {
